@@ -14,4 +14,5 @@ func main() {
 	fmt.Println("CondVar", prog.CondVar(5))
 	fmt.Println("Misc", prog.Misc())
 	fmt.Println("More", prog.More())
+	fmt.Println("Polling", prog.Polling())
 }
